@@ -61,6 +61,7 @@ bool switch_points = true;      // photon_verif_switch() is a scheduling point (
 uint64_t deadlines[32]; int ndeadlines = 0;
 struct Mtx { void* addr; int owner; int depth; } MT[MAXMTX]; int NM = 0;
 struct Poison { uintptr_t lo, hi; } PZ[MAXPOISON]; volatile int NP = 0;
+struct Region { uintptr_t lo, hi; } RG[8]; volatile int NR = 0;     // plain accesses inside are scheduling points (mv_plain_region)
 __thread Th* self = nullptr;
 
 void futex_wait(volatile uint32_t* a, uint32_t v) { syscall(SYS_futex, a, FUTEX_WAIT_PRIVATE, v, nullptr, nullptr, 0); }
@@ -284,7 +285,7 @@ extern "C" {
 void (*mv_on_deadlock)(const char*) = default_deadlock;
 
 void mv_init(void) {
-    NT = 0; NM = 0; NP = 0; vnow = MV_T0; npoints = 0; time_jumps = 0; forced_spins = 0; poll_rounds = 0; time_dev = false; ndeadlines = 0; tso_mode = false; switch_points = true;
+    NT = 0; NM = 0; NP = 0; NR = 0; vnow = MV_T0; npoints = 0; time_jumps = 0; forced_spins = 0; poll_rounds = 0; time_dev = false; ndeadlines = 0; tso_mode = false; switch_points = true;
     mv_on_deadlock = default_deadlock;
     if (&photon::now) photon::now = vnow;
     self = reg_thread("main");
@@ -318,6 +319,7 @@ void mv_time_deviations(int on) { time_dev = on; }
 // (PR_SET_TSC was tried to trap and emulate RDTSC instead: the prctl succeeds in this VM but RDTSC does not trap.)
 void mv_tso(int on) { tso_mode = on; }
 void mv_switch_points(int on) { switch_points = on; }
+void mv_plain_region(const void* p, size_t n) { if (NR < 8) { RG[NR].lo = (uintptr_t)p; RG[NR].hi = (uintptr_t)p + n; NR = NR + 1; } }
 int mv_self(void) { return self ? self->id : -1; }
 int mv_nthreads(void) { return NT; }
 void mv_set_name(const char* name) { if (self) snprintf(self->name, sizeof self->name, "%s", name); }
@@ -444,16 +446,33 @@ static void sb_commit_point(Th* me, uintptr_t pc = 0) {
     me->wait = W_NONE; schedule(me, "store-buffer commit", me->sb.addr); sb_drain(me); }
 #define SB_W() do { if (tso_mode && active && self && self->sb.on) sb_commit_point(self, PC()); } while (0)
 #define SB_R(a, n) do { if (tso_mode && active && self && self->sb.on && self->sb.addr <= (uintptr_t)(a) + (n) - 1 && (uintptr_t)(a) <= self->sb.addr + self->sb.size - 1) sb_commit_point(self, PC()); } while (0)
+// plain accesses inside a registered region (a lock-free structure's own memory) are scheduling points as well: a preemption can land
+// between the publication of an index / mark and the plain store or load it is supposed to guard
+static inline void plain_point(void* a, int n, const char* what) {
+    if (!NR || !active || !self) return;
+    uintptr_t x = (uintptr_t)a;
+    for (int i = 0; i < NR; i++) if (x < RG[i].hi && x + n > RG[i].lo) { Th* me = self; me->wait = W_NONE; schedule(me, what, x); return; }
+}
 #define DEF_PLAIN(N)                                                                                                   \
-    void __tsan_read##N(void* a) { SB_R(a, N); if (NP && active) check_poison((uintptr_t)a, N, PC(), "read"); }        \
-    void __tsan_write##N(void* a) { SB_W(); if (NP && active) check_poison((uintptr_t)a, N, PC(), "write"); }          \
-    void __tsan_unaligned_read##N(void* a) { if (NP && active) check_poison((uintptr_t)a, N, PC(), "read"); }          \
-    void __tsan_unaligned_write##N(void* a) { SB_W(); if (NP && active) check_poison((uintptr_t)a, N, PC(), "write"); } \
+    void __tsan_read##N(void* a) { SB_R(a, N); if (NP && active) check_poison((uintptr_t)a, N, PC(), "read"); plain_point(a, N, "plain read"); }        \
+    void __tsan_write##N(void* a) { SB_W(); if (NP && active) check_poison((uintptr_t)a, N, PC(), "write"); plain_point(a, N, "plain write"); }          \
+    void __tsan_unaligned_read##N(void* a) { if (NP && active) check_poison((uintptr_t)a, N, PC(), "read"); plain_point(a, N, "plain read"); }          \
+    void __tsan_unaligned_write##N(void* a) { SB_W(); if (NP && active) check_poison((uintptr_t)a, N, PC(), "write"); plain_point(a, N, "plain write"); } \
     void __tsan_read_write##N(void* a) { SB_W(); if (NP && active) check_poison((uintptr_t)a, N, PC(), "read-write"); } \
     void __tsan_unaligned_read_write##N(void* a) { if (NP && active) check_poison((uintptr_t)a, N, PC(), "read-write"); }
 DEF_PLAIN(1) DEF_PLAIN(2) DEF_PLAIN(4) DEF_PLAIN(8) DEF_PLAIN(16)
 void __tsan_read_range(void* a, unsigned long n) { if (NP && active) check_poison((uintptr_t)a, n > INT_MAX ? INT_MAX : (int)n, PC(), "read"); }
 void __tsan_write_range(void* a, unsigned long n) { SB_W(); if (NP && active) check_poison((uintptr_t)a, n > INT_MAX ? INT_MAX : (int)n, PC(), "write"); }
+// memcpy / memmove / memset of instrumented code (-tsan-instrument-memintrinsics=1): same treatment as a plain read / write of the range
+static inline void mem_hook(const void* a, unsigned long n, uintptr_t pc, bool write) {
+    if (!active || !self || !n) return;
+    if (write) SB_W(); else SB_R(a, n);
+    if (NP) check_poison((uintptr_t)a, n > INT_MAX ? INT_MAX : (int)n, pc, write ? "write" : "read");
+    plain_point((void*)a, n > INT_MAX ? INT_MAX : (int)n, write ? "plain write" : "plain read");
+}
+void* __tsan_memcpy(void* d, const void* s, unsigned long n) { mem_hook(s, n, PC(), false); mem_hook(d, n, PC(), true); return memcpy(d, s, n); }
+void* __tsan_memmove(void* d, const void* s, unsigned long n) { mem_hook(s, n, PC(), false); mem_hook(d, n, PC(), true); return memmove(d, s, n); }
+void* __tsan_memset(void* d, int c, unsigned long n) { mem_hook(d, n, PC(), true); return memset(d, c, n); }
 void __tsan_vptr_update(void**, void*) {}
 void __tsan_vptr_read(void**) {}
 void __tsan_func_entry(void*) {}
